@@ -27,6 +27,8 @@ enum Kind {
     DanglingSymlink,
     /// the recorded name is a symbolic link to a different valid content pack
     SymlinkToOtherPack,
+    /// the recorded name is a named pipe nobody writes to (opening it for reading never returns)
+    Fifo,
 }
 
 #[derive(Clone, Copy, Debug, PartialEq, Eq)]
@@ -175,6 +177,33 @@ fn containers(seed: u64, tier: Tier) -> Vec<(String, Logical)> {
                     },
                 ));
             }
+            if p >= 2 && k % 3 == 0 {
+                // the last pack is recorded under a URL (loose), or left out of a one-file "light
+                // edition" whose packs are all recorded with an empty location (concat)
+                for (tag, packaging, opts) in [
+                    ("url-located", Packaging::Loose, gen::LogicalOpts { url_located: 1 << (p - 1), ..Default::default() }),
+                    ("light-edition", Packaging::Concat, gen::LogicalOpts { concat_leave_out: 1 << (p - 1), empty_locations: true, ..Default::default() }),
+                ] {
+                    out.push((
+                        format!("c11-{tag}-p{p}-{}{suffix}", comp.name()),
+                        Logical {
+                            comp,
+                            packaging,
+                            n_packs: p,
+                            contents: contents_clone(&contents),
+                            schema: SchemaSpec {
+                                key_prefix: 2,
+                                store: StoreKind::Plain,
+                                variants: false,
+                                key_pad: 0,
+                            },
+                            dedup: false,
+                            aux_seed: rng.next_u64(),
+                            opts,
+                        },
+                    ));
+                }
+            }
             out.push((
                 format!("c11-p{p}-{}{suffix}", comp.name()),
                 Logical {
@@ -236,7 +265,7 @@ fn cases_for(model: &gen::Model, seed: u64) -> Vec<Case> {
         if subset & absent_mask != 0 {
             continue;
         }
-        for kind in [Kind::Removed, Kind::Directory, Kind::OtherPack, Kind::Renamed, Kind::DanglingSymlink, Kind::SymlinkToOtherPack] {
+        for kind in [Kind::Removed, Kind::Directory, Kind::OtherPack, Kind::Renamed, Kind::DanglingSymlink, Kind::SymlinkToOtherPack, Kind::Fifo] {
             for instant in [Instant::BeforeOpen, Instant::AfterOpen, Instant::AfterFirstAccess, Instant::HealedAfterFirstAnswers] {
                 out.push(Case {
                     subset,
@@ -258,7 +287,7 @@ fn cases_for(model: &gen::Model, seed: u64) -> Vec<Case> {
             }
             // "the container check covers the packs that are present": damage each present pack
             for d in 1..=n_packs {
-                if subset & (1 << (d - 1)) == 0 && !model.is_absent(d) {
+                if subset & (1 << (d - 1)) == 0 && !model.is_absent(d) && model.unavailable & (1 << (d - 1)) == 0 {
                     out.push(Case {
                         subset,
                         kind,
@@ -273,7 +302,7 @@ fn cases_for(model: &gen::Model, seed: u64) -> Vec<Case> {
     }
     // damage with nothing missing
     for d in 1..=n_packs {
-        if model.is_absent(d) {
+        if model.is_absent(d) || model.unavailable & (1 << (d - 1)) != 0 {
             continue;
         }
         out.push(Case {
@@ -300,6 +329,9 @@ struct Image {
     /// all packs live inside the entry file (concat): nothing at a recorded location matters
     embedded: bool,
     empty_locations: bool,
+    /// packs (bit p-1) that can be found nowhere whatever the case does: recorded under a URL the
+    /// default locator cannot follow (loose), or left out of the concatenated file
+    always_missing: u32,
 }
 
 fn apply_fault(dir: &Path, img: &Image, case: &Case) {
@@ -322,6 +354,7 @@ fn apply_fault(dir: &Path, img: &Image, case: &Case) {
                 Kind::DanglingSymlink => {
                     let _ = std::os::unix::fs::symlink(dir.join("no-such-target"), &path);
                 }
+                Kind::Fifo => make_fifo(&path),
                 Kind::SymlinkToOtherPack => {
                     let t = dir.join(format!("{name}.foreign"));
                     std::fs::write(&t, &img.foreign).unwrap();
@@ -344,6 +377,10 @@ fn apply_fault(dir: &Path, img: &Image, case: &Case) {
             Kind::DanglingSymlink => {
                 let _ = std::fs::remove_file(&path);
                 let _ = std::os::unix::fs::symlink(dir.join("no-such-target"), &path);
+            }
+            Kind::Fifo => {
+                let _ = std::fs::remove_file(&path);
+                make_fifo(&path);
             }
             Kind::OtherPack | Kind::SymlinkToOtherPack => {
                 // another pack of this container when there is one that stays available, else a foreign one
@@ -371,6 +408,41 @@ fn apply_fault(dir: &Path, img: &Image, case: &Case) {
                 }
             }
         }
+    }
+}
+
+fn make_fifo(path: &Path) {
+    if let Some(parent) = path.parent() {
+        let _ = std::fs::create_dir_all(parent);
+    }
+    let c = std::ffi::CString::new(path.to_string_lossy().as_bytes()).unwrap();
+    unsafe {
+        libc::mkfifo(c.as_ptr(), 0o644);
+    }
+}
+
+/// Wake up anybody blocked in `open(2)` on a FIFO below `dir` (a reader that got stuck there).
+fn release_fifos(dir: &Path) {
+    use std::os::unix::fs::{FileTypeExt, OpenOptionsExt};
+    fn walk(d: &Path, out: &mut Vec<std::path::PathBuf>) {
+        if let Ok(rd) = std::fs::read_dir(d) {
+            for e in rd.flatten() {
+                let p = e.path();
+                match std::fs::symlink_metadata(&p) {
+                    Ok(md) if md.file_type().is_fifo() => out.push(p),
+                    Ok(md) if md.is_dir() => walk(&p, out),
+                    _ => {}
+                }
+            }
+        }
+    }
+    let mut fifos = vec![];
+    walk(dir, &mut fifos);
+    if let Some(parent) = dir.parent() {
+        walk(&parent.join("sib"), &mut fifos);
+    }
+    for f in fifos {
+        let _ = std::fs::OpenOptions::new().write(true).custom_flags(libc::O_NONBLOCK).open(&f);
     }
 }
 
@@ -541,7 +613,7 @@ fn run_case(dir: &Path, img: &Image, case: &Case) -> Vec<String> {
         }
         apply_fault(dir, img, case);
     }
-    let missing = |p: u16| !img.embedded && case.subset & (1 << (p - 1)) != 0;
+    let missing = |p: u16| img.always_missing & (1 << (p - 1)) != 0 || (!img.embedded && case.subset & (1 << (p - 1)) != 0);
     observe_contents(&container, img, case, &order, &missing, case.instant == Instant::AfterFirstAccess, "", &mut bad);
     if case.instant == Instant::HealedAfterFirstAnswers {
         // put every pack back where the manifest says and ask again, on the same container
@@ -563,7 +635,7 @@ fn run_case(dir: &Path, img: &Image, case: &Case) -> Vec<String> {
                 std::fs::write(&path, bytes).unwrap();
             }
         }
-        let nobody = |_p: u16| false;
+        let nobody = |p: u16| img.always_missing & (1 << (p - 1)) != 0;
         observe_contents(&container, img, case, &order, &nobody, false, "after the packs were put back: ", &mut bad);
     }
     // entries and indexes are untouched by any of this
@@ -639,9 +711,18 @@ pub fn worker_main(args: &Args, w: usize, n: usize) -> ! {
         }
         // names relative to the directory of the entry file ("sub/x", "../sib/x" for pack files
         // that live elsewhere)
+        // (a pack recorded under a URL lives next to the manifest under its plain name: nothing
+        // must sit at the path the URL would spell if it were taken for a relative path)
+        let where_is = |p: u16| -> String {
+            if logical.opts.url_located & (1 << (p - 1)) != 0 {
+                format!("{name}.c{p}.jbkc")
+            } else {
+                gen::pack_location(&logical, &name, p)
+            }
+        };
         let rel = |f: &std::path::PathBuf| -> String {
             if let Some((p, _)) = built.pack_files.iter().find(|(_, v)| *v == f) {
-                return gen::pack_location(&logical, &name, *p);
+                return where_is(*p);
             }
             f.file_name().unwrap().to_string_lossy().to_string()
         };
@@ -651,9 +732,9 @@ pub fn worker_main(args: &Args, w: usize, n: usize) -> ! {
             // the locations recorded in the manifest are the names the loose files had
             built.model.pack_ids().into_iter().map(|p| (p, format!("{name}.c{p}.jbkc"))).collect()
         } else {
-            built.pack_files.keys().map(|k| (*k, gen::pack_location(&logical, &name, *k))).collect()
+            built.pack_files.keys().map(|k| (*k, where_is(*k))).collect()
         };
-        let img = Image {
+        let img = Arc::new(Image {
             name: name.clone(),
             desc: gen::describe(&logical),
             files,
@@ -664,7 +745,8 @@ pub fn worker_main(args: &Args, w: usize, n: usize) -> ! {
             foreign: foreign.clone(),
             embedded,
             empty_locations: logical.opts.empty_locations,
-        };
+            always_missing: if embedded { logical.opts.concat_leave_out } else { logical.opts.url_located },
+        });
         let cases = cases_for(&img.model, simcore::prng::hash_label(args.seed, &name, 0));
         let total = cases.len() as u64;
         println!(
@@ -677,7 +759,26 @@ pub fn worker_main(args: &Args, w: usize, n: usize) -> ! {
         for i in lo..hi {
             let case = &cases[i as usize];
             hooks.set_short_reads(if i % 2 == 1 { 300 } else { 0 }, i);
-            let r = std::panic::catch_unwind(std::panic::AssertUnwindSafe(|| run_case(&case_dir, &img, case)));
+            let r = if case.kind == Kind::Fifo {
+                // a reader that opens the pipe never comes back: the case runs on its own thread
+                // and is given 20 s (it takes about a millisecond)
+                let (tx, rx) = std::sync::mpsc::channel();
+                let (img2, case2, dir2) = (Arc::clone(&img), case.clone(), case_dir.clone());
+                std::thread::spawn(move || {
+                    let r = std::panic::catch_unwind(std::panic::AssertUnwindSafe(|| run_case(&dir2, &img2, &case2)));
+                    let _ = tx.send(r);
+                });
+                match rx.recv_timeout(std::time::Duration::from_secs(20)) {
+                    Ok(r) => r,
+                    Err(_) => {
+                        release_fifos(&case_dir);
+                        let _ = rx.recv_timeout(std::time::Duration::from_secs(5));
+                        Ok(vec!["a named pipe sits at a pack's recorded location and the reader never answers (no result within 20 s): it blocks opening the pipe".to_string()])
+                    }
+                }
+            } else {
+                std::panic::catch_unwind(std::panic::AssertUnwindSafe(|| run_case(&case_dir, &img, case)))
+            };
             let (bad, panicked) = match r {
                 Ok(b) => (b, false),
                 Err(_) => {
